@@ -16,6 +16,9 @@ def base(prop):
     if prop not in BASE: BASE[prop]=_base(prop)
     return BASE[prop]
 seeds=sorted(glob.glob(os.path.join(verif,'seeded','C*-*','patch.diff')))
+# SEEDFILTER=r6: run only the seeds whose id contains the filter and merge them into the stored MATRIX.json
+flt=os.environ.get('SEEDFILTER','')
+if flt: seeds=[s for s in seeds if flt in os.path.basename(os.path.dirname(s))]
 def run(seed):
     sid=os.path.basename(os.path.dirname(seed)); own=sid.split('-')[0]
     tmp=tempfile.mkdtemp(prefix='foxmx-')
@@ -40,6 +43,10 @@ def run(seed):
     return res
 with ThreadPoolExecutor(max_workers=6) as ex:
     results=list(ex.map(run,seeds))
+if flt and os.path.exists(os.path.join(verif,'seeded','MATRIX.json')):
+    prev=json.load(open(os.path.join(verif,'seeded','MATRIX.json')))
+    done=set(r['seed'] for r in results)
+    results=sorted([r for r in prev if r['seed'] not in done]+results,key=lambda r:r['seed'])
 json.dump(results,open(os.path.join(verif,'seeded','MATRIX.json'),'w'),indent=1)
 with open(os.path.join(verif,'seeded','MATRIX.md'),'w') as f:
     f.write('# Seeded changes (independent sub-agents) versus the checks\n\n')
